@@ -10,8 +10,19 @@
 //! * `data` (C02): update transactions over binary and analog points in classes 0-3 interleaved with
 //!   polls, unsolicited reporting, commands, delays, holds, octet-granular delivery, re-chunking and
 //!   cuts, over small and large buffers and event buffers, both link error modes; every history ends
-//!   with a quiescent tail (wire released, no delay, settling time, two integrity reads) after which
-//!   the convergence monitors compare the handler's picture with the database.
+//!   with a quiescent tail after which the convergence monitors compare the handler's picture with the
+//!   database.  Two kinds of tail (half of the cases each):
+//!   - `explicit`: wire released, no delay, settling time, two user reads of classes 0-3, `@converged`;
+//!   - `auto`: wire released, no delay, NO user request at all: only virtual time passes (retries, confirm
+//!     time-outs, back-off of the automatic tasks, every configured poll period several times), then
+//!     `@converged auto`: the picture is judged on what the library did by itself (integrity poll on
+//!     reconnection / restart IIN / overflow IIN, unsolicited reporting, periodic polls, automatic event
+//!     scans).  One auto tail in four cuts the connection once more first (`auto` after a reconnection).
+//!   Kind `ovfread` aims at event buffer overflow racing with multi-fragment event reads: event buffers of
+//!   36-50 per type behind a 249 / 300 octet response buffer (a full buffer takes several fragments),
+//!   events collected by periodic event polls / user event reads (unsolicited mostly off), bursts of
+//!   updates longer than the buffer, so that IIN2.3 is reported in fragments of a series whose confirms
+//!   free the buffer again (the indication is then carried by non-final fragments only).
 use crate::rng::Rng;
 use std::io::Write;
 
@@ -34,6 +45,10 @@ struct G<'a> {
     time: u64,
     polls: usize,
     unsolicited: bool,
+    /// the master does not disable unsolicited reporting at start-up for every class it enables, and its
+    /// response time-out does not exceed the outstation's confirm time-out (see `tail`)
+    slow_start: bool,
+    cuts: usize,
 }
 
 impl<'a> G<'a> {
@@ -125,6 +140,71 @@ impl<'a> G<'a> {
         };
         self.line(&format!("cmd {id} {kind} {objs}"));
     }
+    /// the quiescent tail.  `auto`: no user request, only time passes
+    fn tail(&mut self, auto: bool, final_cut: bool) {
+        self.line("@quiet");
+        self.line("appiin 0");
+        self.line("chunk 0");
+        self.line("delay m2o 0");
+        self.line("delay o2m 0");
+        self.line("hold m2o off");
+        self.line("hold o2m off");
+        if !auto {
+            // activity stops, the wire is released and prompt, everything settles, then the master asks
+            // for everything twice
+            self.line("tick 25000");
+            self.line("tick 25000");
+            self.line("tick 25000");
+            self.line("read 9001 15");
+            self.line("tick 21000");
+            self.line("read 9002 15");
+            self.line("tick 21000");
+            self.line("@converged");
+            return;
+        }
+        if final_cut {
+            // the last interruption: whatever was in flight is lost, both sessions restart
+            let t = *self.r.pick(&[0u64, 1, 700, 6000]);
+            self.line(&format!("tick {t}"));
+            self.line("cut");
+            self.cuts += 1;
+        }
+        if self.slow_start && self.cuts > 0 {
+            // After a reconnection this outstation still has unsolicited reporting enabled and this master
+            // neither disables it first nor confirms unsolicited data before its start-up integrity poll is
+            // complete; the outstation defers that READ until the confirm time-out of the unsolicited response
+            // in progress, which is not shorter than the master's response time-out: the poll succeeds only
+            // when the READ arrives late enough in a confirm wait (or between two), i.e. when the phases of the
+            // master's back-off and of the outstation's retry cycle happen to fit.  Coarse steps re-align the
+            // two endpoints at every step (everything that expired fires at the same instant) and can keep
+            // them aligned for ever, so here the time passes in steps of 250 ms, for 400 s.
+            self.line("@fine");
+            for _ in 0..1600 {
+                self.line("tick 250");
+            }
+            self.line("@converged auto");
+            return;
+        }
+        // only time passes.  A `tick` activates each endpoint once at its end (all the timers that expired fire
+        // at that one instant), so the time is cut finely: blocks of 20 s in steps of 0.5 - 5 s, in which the
+        // retries, confirm time-outs (<= 15 s), response time-outs (<= 20 s) and back-off delays (<= 10 s) of
+        // the two endpoints fire at their own instants, separated by the long waits that the slowest chains
+        // and the longest poll period (60 s) need
+        const FINE: [u64; 13] = [500, 500, 500, 500, 1000, 1000, 1000, 1000, 2000, 2000, 2000, 3000, 5000];
+        const LONG: [&[u64]; 4] = [&[10000, 20000], &[61000], &[10000, 20000, 61000], &[20000]];
+        for t in [1u64, 99, 400] {
+            self.line(&format!("tick {t}"));
+        }
+        for long in LONG {
+            for t in FINE {
+                self.line(&format!("tick {t}"));
+            }
+            for t in long {
+                self.line(&format!("tick {t}"));
+            }
+        }
+        self.line("@converged auto");
+    }
     /// an unrelated fragment inserted by the relay towards the master while a time synchronisation runs
     fn inject_noise(&mut self) {
         let seq = self.r.below(16);
@@ -147,7 +227,7 @@ impl<'a> G<'a> {
 fn gen_sync(case: usize, mut r: Rng, w: &mut dyn Write, merge: bool) {
     let kind = *r.pick(&["lan", "lan", "nonlan", "nonlan", "nonlan", "direct", "auto_lan", "auto_nonlan", "forged", "timeout"]);
     writeln!(w, "# case {case} kind=sync_{kind}").unwrap();
-    let mut g = G { r, w, uid: 0, points: Vec::new(), time: 1000, polls: 0, unsolicited: false };
+    let mut g = G { r, w, uid: 0, points: Vec::new(), time: 1000, polls: 0, unsolicited: false, slow_start: false, cuts: 0 };
     // delays: a = request, pb = processing + reply, c = WRITE
     let mut a = g.delay_value();
     let mut pb = g.delay_value();
@@ -330,9 +410,12 @@ fn gen_sync(case: usize, mut r: Rng, w: &mut dyn Write, merge: bool) {
 }
 
 fn gen_data(case: usize, mut r: Rng, w: &mut dyn Write, merge: bool) {
-    let kind = *r.pick(&["mixed", "mixed", "mixed", "unsol", "poll", "overflow", "cuts", "bigdb"]);
+    let kind = *r.pick(&["mixed", "mixed", "mixed", "unsol", "poll", "overflow", "cuts", "bigdb", "ovfread", "ovfread"]);
+    if kind == "ovfread" {
+        return gen_ovfread(case, r, w, merge);
+    }
     writeln!(w, "# case {case} kind=data_{kind}").unwrap();
-    let mut g = G { r, w, uid: 0, points: Vec::new(), time: 1000, polls: 0, unsolicited: false };
+    let mut g = G { r, w, uid: 0, points: Vec::new(), time: 1000, polls: 0, unsolicited: false, slow_start: false, cuts: 0 };
     g.unsolicited = match kind {
         "unsol" => true,
         "poll" => false,
@@ -345,21 +428,27 @@ fn gen_data(case: usize, mut r: Rng, w: &mut dyn Write, merge: bool) {
     let sol = *g.r.pick(&[249u16, 249, 300, 512, 2048]);
     let dm2o = g.small_delay();
     let do2m = g.small_delay();
+    let ctimeout = *g.r.pick(&[5000u64, 1009, 15000]);
+    let rto = *g.r.pick(&[5000u64, 2000, 20000]);
+    let dis = *g.r.pick(&[7u8, 7, 0]);
+    let int = *g.r.pick(&[15u8, 15, 15, 8, 0]);
+    let en = *g.r.pick(&[7u8, 7, 7, 1, 0]);
+    g.slow_start = g.unsolicited && int != 0 && en & !dis != 0 && rto <= ctimeout;
     let cfg = format!(
         "cfg sol={} unsol={} unsolicited={} retries={} ctimeout={} rdelay={} evmax={} discard={} mtx={} rto={} dis={} int={} en={} evscan={} ovf={} rmin={} rmax={} mclock=1000 dm2o={} do2m={} chunk={}",
         sol,
         *g.r.pick(&[249u16, 300, 2048]),
         g.unsolicited as u8,
         *g.r.pick(&["none", "0", "1", "3"]),
-        *g.r.pick(&[5000u64, 1009, 15000]),
+        ctimeout,
         *g.r.pick(&[5000u64, 3001, 500]),
         evmax,
         g.r.chance(1, 2) as u8,
         *g.r.pick(&[249u16, 2048]),
-        *g.r.pick(&[5000u64, 2000, 20000]),
-        *g.r.pick(&[7u8, 7, 0]),
-        *g.r.pick(&[15u8, 15, 15, 8, 0]),
-        *g.r.pick(&[7u8, 7, 7, 1, 0]),
+        rto,
+        dis,
+        int,
+        en,
         *g.r.pick(&[0u8, 0, 7, 2]),
         g.r.chance(3, 4) as u8,
         *g.r.pick(&[1000u64, 500]),
@@ -408,6 +497,7 @@ fn gen_data(case: usize, mut r: Rng, w: &mut dyn Write, merge: bool) {
             g.line(&format!("read {id} {cls}"));
         } else if x < 64 + cut_w {
             g.line("cut");
+            g.cuts += 1;
         } else if x < 74 {
             let d = if g.r.chance(1, 2) { "m2o" } else { "o2m" };
             let v = g.small_delay();
@@ -453,23 +543,174 @@ fn gen_data(case: usize, mut r: Rng, w: &mut dyn Write, merge: bool) {
             g.line(&format!("appiin {b}"));
         }
     }
-    // quiescent tail: activity stops, the wire is released and prompt, everything settles,
-    // then the master asks for everything twice
-    g.line("@quiet");
-    g.line("appiin 0");
-    g.line("chunk 0");
-    g.line("delay m2o 0");
-    g.line("delay o2m 0");
-    g.line("hold m2o off");
-    g.line("hold o2m off");
-    g.line("tick 25000");
-    g.line("tick 25000");
-    g.line("tick 25000");
-    g.line("read 9001 15");
-    g.line("tick 21000");
-    g.line("read 9002 15");
-    g.line("tick 21000");
-    g.line("@converged");
+    let auto = g.r.chance(1, 2);
+    let final_cut = auto && g.r.chance(1, 4);
+    g.tail(auto, final_cut);
+}
+
+/// event buffer overflow racing with multi-fragment event reads (see the module comment)
+fn gen_ovfread(case: usize, r: Rng, w: &mut dyn Write, merge: bool) {
+    writeln!(w, "# case {case} kind=data_ovfread").unwrap();
+    let mut g = G { r, w, uid: 0, points: Vec::new(), time: 1000, polls: 0, unsolicited: false, slow_start: false, cuts: 0 };
+    g.unsolicited = g.r.chance(1, 4);
+    let evmax = *g.r.pick(&[36u16, 40, 50, 50]);
+    let fast = |g: &mut G| *g.r.pick(&[0u64, 0, 0, 1, 5, 10, 50]);
+    let dm2o = fast(&mut g);
+    let do2m = fast(&mut g);
+    let ctimeout = *g.r.pick(&[5000u64, 1009, 15000]);
+    let rto = *g.r.pick(&[5000u64, 2000, 20000]);
+    let dis = *g.r.pick(&[7u8, 7, 0]);
+    let int = *g.r.pick(&[15u8, 15, 15, 8, 8, 0]);
+    let en = *g.r.pick(&[7u8, 0, 0, 1]);
+    g.slow_start = g.unsolicited && int != 0 && en & !dis != 0 && rto <= ctimeout;
+    let cfg = format!(
+        "cfg sol={} unsol={} unsolicited={} retries={} ctimeout={} rdelay={} evmax={} discard={} mtx={} rto={} dis={} int={} en={} evscan={} ovf={} rmin={} rmax={} mclock=1000 dm2o={} do2m={} chunk={}",
+        *g.r.pick(&[249u16, 249, 300]),
+        *g.r.pick(&[249u16, 300, 2048]),
+        g.unsolicited as u8,
+        *g.r.pick(&["none", "0", "1", "3"]),
+        ctimeout,
+        *g.r.pick(&[5000u64, 3001, 500]),
+        evmax,
+        g.r.chance(1, 2) as u8,
+        *g.r.pick(&[249u16, 2048]),
+        rto,
+        dis,
+        int,
+        en,
+        *g.r.pick(&[0u8, 0, 7, 2]),
+        g.r.chance(7, 8) as u8,
+        *g.r.pick(&[1000u64, 500]),
+        *g.r.pick(&[10000u64, 2000]),
+        dm2o,
+        do2m,
+        g.chunk(),
+    );
+    g.line(&if merge { format!("{cfg} merge=1") } else { cfg });
+    // analog points (7 octets per event: 34 / 41 events per fragment) and some binary ones (3 octets)
+    let na = g.r.range(3, 7) as u16;
+    let nb = g.r.below(4) as u16;
+    let one_class = if g.r.chance(1, 2) { Some(g.r.range(1, 3) as u8) } else { None };
+    for i in 0..na {
+        let class = one_class.unwrap_or(g.r.range(1, 3) as u8);
+        g.line(&format!("addan {i} {class}"));
+        g.points.push((false, i, class));
+    }
+    for i in 0..nb {
+        let class = if g.r.chance(1, 6) { 0 } else { one_class.unwrap_or(g.r.range(1, 3) as u8) };
+        g.line(&format!("addbin {i} {class}"));
+        g.points.push((true, i, class));
+    }
+    let t0 = *g.r.pick(&[0u64, 100, 1000, 5000]);
+    g.line(&format!("tick {t0}"));
+    // who collects the events: a periodic event poll (no class 0) and / or user event reads
+    let period = *g.r.pick(&[1000u64, 3000, 7000]);
+    let ev_cls = *g.r.pick(&[7u8, 7, 7, 7, 1, 2, 6, 3, 5]);
+    let has_poll = g.r.chance(3, 4);
+    if has_poll {
+        g.line(&format!("addpoll {period} {ev_cls}"));
+        g.polls += 1;
+    }
+    if g.r.chance(1, 8) {
+        // a periodic integrity poll as well: every point is re-read
+        let per = *g.r.pick(&[3000u64, 60000]);
+        g.line(&format!("addpoll {per} 15"));
+        g.polls += 1;
+    }
+    // the first integrity poll and the rest of the start-up sequence get their time
+    let t1 = *g.r.pick(&[0u64, 50, 500, 2000]);
+    g.line(&format!("tick {t1}"));
+    let rounds = g.r.range(1, 3);
+    let analogs: Vec<u16> = (0..na).collect();
+    for _ in 0..rounds {
+        // victims: updated once, then pushed out of the buffer by the burst
+        let nv = g.r.range(1, 2) as usize;
+        let victims: Vec<u16> = analogs.iter().copied().take(nv).collect();
+        let others: Vec<u16> = analogs.iter().copied().skip(nv).collect();
+        let mut items = Vec::new();
+        for v in &victims {
+            g.time += 1;
+            items.push(format!("an:{v}:{}:1:{}", g.r.range(0, 2_000_000) as i64 - 1_000_000, g.time));
+        }
+        g.line(&format!("txn {}", items.join(" ")));
+        // the burst: more events than the buffer holds (sometimes just short of it), split over several
+        // transactions between which the polls / reads in progress advance
+        let total = match g.r.below(6) {
+            0 => evmax as u64 - g.r.range(1, 3),
+            1 => evmax as u64,
+            2 => evmax as u64 + 1,
+            3 => evmax as u64 * 2 + g.r.below(10),
+            _ => evmax as u64 + g.r.range(2, 30),
+        };
+        let mut left = total;
+        while left > 0 {
+            let n = left.min(g.r.range(6, 25));
+            left -= n;
+            let mut items = Vec::new();
+            for k in 0..n {
+                g.time += 1;
+                let idx = others[(k as usize + left as usize) % others.len()];
+                items.push(format!("an:{idx}:{}:1:{}", g.r.range(0, 2_000_000) as i64 - 1_000_000, g.time));
+            }
+            if nb > 0 && g.r.chance(1, 3) {
+                g.time += 1;
+                items.push(format!("bin:{}:{}:1:{}", g.r.below(nb as u64), g.r.below(2), g.time));
+            }
+            g.line(&format!("txn {}", items.join(" ")));
+            match g.r.below(12) {
+                0 => {
+                    let t = g.r.range(1, period);
+                    g.line(&format!("tick {t}"));
+                }
+                1 => g.line("tick 0"),
+                2 => {
+                    let d = if g.r.chance(1, 2) { "m2o" } else { "o2m" };
+                    let v = fast(&mut g);
+                    g.line(&format!("delay {d} {v}"));
+                }
+                3 if !has_poll || g.r.chance(1, 3) => {
+                    let id = g.next_uid();
+                    g.line(&format!("read {id} {ev_cls}"));
+                }
+                _ => {}
+            }
+        }
+        // the events are collected: the poll period elapses / the user reads the event classes
+        match g.r.below(8) {
+            0 => {
+                let d = if g.r.chance(1, 2) { "m2o" } else { "o2m" };
+                g.line(&format!("hold {d} on"));
+                g.line(&format!("tick {}", period + 1));
+                g.txn();
+                g.line(&format!("hold {d} off"));
+            }
+            1 => {
+                g.line("cut");
+                g.cuts += 1;
+            }
+            _ => {}
+        }
+        if !has_poll || g.r.chance(1, 4) {
+            let id = g.next_uid();
+            g.line(&format!("read {id} {ev_cls}"));
+        }
+        let t = period + g.r.below(3) * 1000 + g.r.below(50);
+        g.line(&format!("tick {t}"));
+        if g.r.chance(1, 2) {
+            g.line(&format!("tick {}", period + 1));
+        }
+        if g.r.chance(1, 4) {
+            // a few ordinary updates afterwards (never the victims)
+            g.time += 1;
+            let idx = others[g.r.below(others.len() as u64) as usize];
+            let v = g.r.below(1000);
+            let t = g.time;
+            g.line(&format!("txn an:{idx}:{v}:1:{t}"));
+        }
+    }
+    let auto = g.r.chance(3, 4);
+    let final_cut = auto && g.r.chance(1, 8);
+    g.tail(auto, final_cut);
 }
 
 pub fn gen(thorough: bool, seed: u64, w: &mut dyn Write, p: Profile) {
